@@ -7,7 +7,7 @@ from .. import kernelspec
 from ..dataflow import flow_of
 from ..model import AnalysisError, FuncInfo, Program, body_walk, calls_in_body, dotted, norm, parent
 from ..poly import Poly, PolyEnv
-from ..report import Result
+from ..report import Result, depends
 from ..streamops import KMOD, StreamOp
 
 TITLE = "Folding puts every sample in exactly one bin fixed by the phase model"
@@ -21,7 +21,8 @@ EXPLANATION = (
     "(nints, nsubs, nbins) that both callers reshape to, and the arrays are allocated with exactly that many cells; (R3) "
     "Filterbank.fold streams with skipback = maxdelay and passes the absolute index block*(gulp-maxdelay); (R4) both "
     "accumulators start from np.zeros and the division by the hit counts happens once, after the loop and before the "
-    "reshape; (R5) the 15 positional kernel arguments receive the right quantities at both call sites. Together these "
+    "reshape; (R5) the 15 positional kernel arguments receive the right quantities at both call sites; (R6) the read plan the "
+    "folding loop consumes satisfies C01's rules (re-evaluated here, with C02's stream rules). Together these "
     "make the cube independent of the gulp. Not decided: values of the phase formula, single-bin occupancy of a pulse "
     "train, sub-range folding semantics."
 )
@@ -94,6 +95,9 @@ def run(prog: Program, res: Result, tier: str) -> None:
         else:
             res.bad("R4", tf, call, f"fold accumulates into '{norm(a)}' with +=, but it is not created by np.zeros", key=key)
     _layout(prog, res, tf, flow, call, k, b, None)
+    # ---- R6 the plan the folding loop consumes (shared with C01) ------------------------------------------------------
+    depends(res, "R6", prog, tier, "C01", why="the blocks these loops consume come from read_plan: the plan rules of C01 (and, through them, the multi-file stream rules of C02) are re-evaluated here")
+    res.floor("R6", 40)
     res.floor("R1", 1)
     res.floor("R2", 4)
     res.floor("R3", 3)
